@@ -110,7 +110,14 @@ func (l *memListener) Accept() (net.Conn, error) {
 		return nil, net.ErrClosed
 	}
 }
-func (l *memListener) Close() error   { l.once.Do(func() { close(l.done) }); return nil }
+
+// Close: like the listeners of package net, closing a closed listener reports net.ErrClosed (code that looks
+// at the error of Close must not take the second Close of a repeated Shutdown for a failure to shut down).
+func (l *memListener) Close() error {
+	err := error(&net.OpError{Op: "close", Net: "mem", Addr: memAddr("mem-listener"), Err: net.ErrClosed})
+	l.once.Do(func() { close(l.done); err = nil })
+	return err
+}
 func (l *memListener) Addr() net.Addr { return memAddr("mem-listener") }
 
 // dial hands the server end to Accept; it fails when the listener is closed first.
@@ -2058,12 +2065,37 @@ type srvScen struct {
 	Sd   string `json:"sd"`
 	Seed uint64 `json:"seed"`
 	Hk   string `json:"hk"` // shape of the connect hook's result (hookShapesFail / hookShapesOK); "" = nil when k=f, same otherwise
+	// X: the FURTHER calls of Shutdown, one letter each (at most 2; "" = Shutdown is called once), relative to the
+	// call made at the directed point sd (the first call):
+	//	m  at the same moment as the first call (both started together: they race for the lock)
+	//	o  overlapping: as soon as the first call has closed the listener, i.e. while it is draining
+	//	d  a random 0..1500 µs after the first call was started (overlapping, or just after it)
+	//	s  sequential: once every earlier call has returned and Serve has returned
+	X string `json:"x"`
+}
+
+// the further calls of Shutdown the harness knows (srvScen.X)
+const recallKinds = "mods"
+
+func recallOK(x string) bool {
+	if len(x) > 2 {
+		return false
+	}
+	for _, c := range x {
+		if !strings.ContainsRune(recallKinds, c) {
+			return false
+		}
+	}
+	return true
 }
 
 func (s *srvScen) text() string {
 	t := fmt.Sprintf("n=%d,k=%s,sd=%s", s.N, s.Kind, s.Sd)
 	if s.Hk != "" {
 		t += ",hk=" + s.Hk
+	}
+	if s.X != "" {
+		t += ",x=" + s.X
 	}
 	return t
 }
@@ -2092,11 +2124,38 @@ func parseSrvScenText(t string) (*srvScen, error) {
 			s.Seed, _ = strconv.ParseUint(v, 10, 64)
 		case "hk":
 			s.Hk = v
+		case "x":
+			if !recallOK(v) {
+				return nil, errors.New("bad scenario: x=" + v)
+			}
+			s.X = v
 		default:
 			return nil, errors.New("bad scenario key: " + k)
 		}
 	}
 	return s, nil
+}
+
+// one call of Shutdown and what was observed at the moment IT returned
+type sdCall struct {
+	how        byte // 'p' the call at the directed point, else a letter of srvScen.X
+	start, end time.Time
+	done       chan struct{}
+	ret        bool
+	busyAtCall int // handlers running when the call was made
+	handlers   int // handlers running at its return
+	owners     int // handleConn goroutines alive at its return
+	rw         int // readloop / writeloop goroutines alive at its return
+	unpaired   int // connections whose connect hook succeeded and whose terminate hook has not run (or ran without) at its return
+	drainedAt  bool // the calls before it had all returned when it was made
+}
+
+func (c *sdCall) ms() int64 { return c.end.Sub(c.start).Milliseconds() }
+
+func (c *sdCall) name(j, n int) string {
+	what := map[byte]string{'p': "at the directed point", 'm': "started together with the first", 'o': "made while the first call was draining (listener just closed)",
+		'd': "made 0..1500 µs after the first", 's': "made after the earlier calls and Serve had returned"}[c.how]
+	return fmt.Sprintf("call %d of %d of Shutdown (%s)", j+1, n, what)
 }
 
 type srvObs struct {
@@ -2180,23 +2239,76 @@ func runSrvJob(job *ltsJob) *ltsRes {
 			ci.point = point
 		}
 	}
-	shutdownDone := make(chan struct{})
-	var shutdownStart, shutdownEnd time.Time
-	var once sync.Once
 	obs := &srvObs{}
-	doShutdown := func() {
-		shutdownStart = time.Now()
-		_ = ts.srv.Shutdown()
-		// the moment Shutdown returns
-		obs.HandlersAtRe = int(w.running.Load())
-		w.returned.Store(true)
-		m, rr, ww := connGoroutines()
-		obs.OwnersAtRet = m
-		obs.RWAtRet = rr + ww
-		shutdownEnd = time.Now()
-		close(shutdownDone)
+	// the calls of Shutdown: calls[0] at the directed point, the others as sc.X says. What the property
+	// promises "after shutdown returns" is observed at the return of EACH of them.
+	calls := make([]*sdCall, 1+len(sc.X))
+	calls[0] = &sdCall{how: 'p', done: make(chan struct{}), drainedAt: true}
+	for j := range sc.X {
+		calls[j+1] = &sdCall{how: sc.X[j], done: make(chan struct{})}
 	}
-	callShutdown := func() { once.Do(func() { go doShutdown() }) }
+	shutdownDone := calls[0].done
+	serveRet := make(chan struct{})
+	var serveErr error
+	go func() { serveErr = <-ts.serveC; close(serveRet) }()
+	var callMu sync.Mutex
+	doCall := func(c *sdCall) {
+		c.busyAtCall = int(w.running.Load())
+		c.start = time.Now()
+		_ = ts.srv.Shutdown()
+		// the moment this call of Shutdown returns
+		c.handlers = int(w.running.Load())
+		w.returned.Store(true)
+		for i := 1; i <= sc.N; i++ {
+			ci := w.info(i)
+			cn, tn := ci.connectN.Load(), ci.terminateN.Load()
+			want := int32(0)
+			if cn >= 1 && sc.Kind != "f" {
+				want = 1
+			}
+			if tn != want {
+				c.unpaired++
+			}
+		}
+		callMu.Lock() // (one goroutine profile at a time)
+		m, rr, ww := connGoroutines()
+		callMu.Unlock()
+		c.owners = m
+		c.rw = rr + ww
+		c.end = time.Now()
+		close(c.done)
+	}
+	rx := rng.New(sc.Seed + 991)
+	launchRecalls := func() {
+		for j := 1; j < len(calls); j++ {
+			c := calls[j]
+			earlier := calls[:j]
+			switch c.how {
+			case 'm':
+				go doCall(c)
+			case 'o':
+				go func() { <-ts.l.done; doCall(c) }()
+			case 'd':
+				d := time.Duration(rx.Intn(1500)) * time.Microsecond
+				go func() { time.Sleep(d); doCall(c) }()
+			default: // 's'
+				go func() {
+					for _, e := range earlier {
+						<-e.done
+					}
+					select {
+					case <-serveRet:
+					case <-time.After(2 * time.Second):
+					}
+					c.drainedAt = true
+					doCall(c)
+				}()
+			}
+		}
+	}
+	var once sync.Once
+	doShutdown := func() { launchRecalls(); doCall(calls[0]) }
+	callShutdown := func() { once.Do(func() { launchRecalls(); go doCall(calls[0]) }) }
 	var spawned atomic.Bool
 	if sc.Sd == "spawn" {
 		// Shutdown runs between `go srv.handleConn(conn)` of the last connection and the first instruction
@@ -2215,6 +2327,15 @@ func runSrvJob(job *ltsJob) *ltsRes {
 				spawned.Store(true)
 				once.Do(doShutdown)
 			}
+		}
+	}
+	if sc.Sd == "pre" {
+		// Shutdown before Serve: Serve, started once the call has returned, finds a server that has been shut down
+		callShutdown()
+		select {
+		case <-shutdownDone:
+			res.count("server.held:pre")
+		case <-time.After((graceMs + 4000) * time.Millisecond):
 		}
 	}
 	ts.start()
@@ -2359,11 +2480,43 @@ func runSrvJob(job *ltsJob) *ltsRes {
 			res.count("server.held:spawn")
 		}
 	}
-	select {
-	case <-shutdownDone:
-		obs.Ret = true
-	case <-time.After((graceMs + 4000) * time.Millisecond):
-		add("shutdown-returns", "shutdown-hangs", fmt.Sprintf("Shutdown did not return within %d ms", graceMs+4000))
+	hangLimit := time.After((graceMs + 4000) * time.Millisecond)
+	obs.Ret = true
+	for j, c := range calls {
+		select {
+		case <-c.done:
+			c.ret = true
+		case <-hangLimit:
+			obs.Ret = false
+			key := "shutdown-hangs"
+			if j > 0 {
+				key += " repeated-call"
+			}
+			add("shutdown-returns", key, fmt.Sprintf("%s did not return within %d ms", c.name(j, len(calls)), graceMs+4000))
+		}
+	}
+	if calls[0].ret {
+		obs.HandlersAtRe, obs.OwnersAtRet, obs.RWAtRet = calls[0].handlers, calls[0].owners, calls[0].rw
+		obs.ShutdownMs = calls[0].ms()
+	}
+	// (for the outcome line: an owner / reader / writer alive at a moment when SOME call had returned)
+	anyOwners, anyRW := obs.OwnersAtRet, obs.RWAtRet
+	for _, c := range calls[1:] {
+		if !c.ret {
+			continue
+		}
+		anyOwners += c.owners
+		anyRW += c.rw
+		switch {
+		case c.drainedAt:
+			res.count("server.recall:sequential")
+		case !c.start.Before(calls[0].end):
+			res.count("server.recall:after")
+		case c.busyAtCall > 0:
+			res.count("server.recall:overlap-busy")
+		default:
+			res.count("server.recall:overlap")
+		}
 	}
 	if w.acceptHold.Load() != 0 {
 		select {
@@ -2372,13 +2525,12 @@ func runSrvJob(job *ltsJob) *ltsRes {
 			close(w.acceptRelease)
 		}
 	}
-	obs.ShutdownMs = shutdownEnd.Sub(shutdownStart).Milliseconds()
 	select {
-	case err := <-ts.serveC:
-		if errors.Is(err, kmipserver.ErrShutdown) {
+	case <-serveRet:
+		if errors.Is(serveErr, kmipserver.ErrShutdown) {
 			obs.ServeErr = "shutdown"
 		} else {
-			obs.ServeErr = fmt.Sprint(err)
+			obs.ServeErr = fmt.Sprint(serveErr)
 		}
 	case <-time.After(1500 * time.Millisecond):
 		obs.ServeErr = "running"
@@ -2394,7 +2546,7 @@ func runSrvJob(job *ltsJob) *ltsRes {
 	}
 	m, rr, ww := settle(1500 * time.Millisecond)
 	obs.Ended = m+rr+ww == 0
-	obs.Late = w.late.Load() || obs.OwnersAtRet > 0
+	obs.Late = w.late.Load() || anyOwners > 0
 	for i := 1; i <= 2; i++ {
 		ci := w.info(i)
 		obs.Conns = append(obs.Conns, fmt.Sprintf("c%dt%d", ci.connectN.Load(), ci.terminateN.Load()))
@@ -2416,7 +2568,7 @@ func runSrvJob(job *ltsJob) *ltsRes {
 		cl.mu.Unlock()
 	}
 	obs.Outcome = fmt.Sprintf("ret=%d serve=%s handlers=%d wg=%d conns=%s ended=%d late=%d resp=%d rwlate=%d", b2i(obs.Ret), obs.ServeErr,
-		int(w.running.Load()), m, strings.Join(obs.Conns, "."), b2i(obs.Ended), b2i(obs.Late), obs.Resp, b2i(obs.RWAtRet > 0))
+		int(w.running.Load()), m, strings.Join(obs.Conns, "."), b2i(obs.Ended), b2i(obs.Late), obs.Resp, b2i(anyRW > 0))
 	res.Outcomes = []string{obs.Outcome}
 	res.takeControls(w)
 	// C16 oracle
@@ -2468,6 +2620,39 @@ func runSrvJob(job *ltsJob) *ltsRes {
 				}
 				add("drained", "connection-left-open", fmt.Sprintf("connection %d (%s) is still open on the server side after Shutdown returned", i+1, what))
 			}
+		}
+	}
+	// every further call of Shutdown: what holds "after shutdown returns" holds when IT returns, whether or not
+	// an earlier call is still draining
+	for j, c := range calls {
+		if j == 0 || !c.ret {
+			continue
+		}
+		nm := c.name(j, len(calls))
+		if c.handlers != 0 {
+			add("no-handler-after", "handler-running-at-return repeated-call", fmt.Sprintf("%d handlers running when %s returned, after %d ms", c.handlers, nm, c.ms()))
+		}
+		if c.owners != 0 {
+			add("no-handler-after", "owner-alive-at-return repeated-call", fmt.Sprintf("%d connection goroutines (handleConn) alive when %s returned, after %d ms", c.owners, nm, c.ms()))
+		}
+		if c.rw != 0 {
+			add("goroutines-end", "rw-alive-at-return repeated-call", fmt.Sprintf("%d per-connection goroutines (readloop / writeloop) alive when %s returned, after %d ms", c.rw, nm, c.ms()))
+		}
+		limit := int64(1500)
+		if (sc.Kind == "w" || sc.Kind == "n") && !c.drainedAt {
+			limit = graceMs + 1500
+		}
+		if c.ms() > limit {
+			add("shutdown-returns", "shutdown-slow repeated-call", fmt.Sprintf("%s took %d ms", nm, c.ms()))
+		}
+	}
+	for j, c := range calls {
+		if c.ret && c.unpaired != 0 {
+			key := "hooks-unpaired-at-return"
+			if j > 0 {
+				key += " repeated-call"
+			}
+			add("hooks", key, fmt.Sprintf("%d connections whose terminate hook had not run exactly once after a successful connect hook (or had run without one) when %s returned, after %d ms", c.unpaired, c.name(j, len(calls)), c.ms()))
 		}
 	}
 	// in-flight requests: a request whose handler started is answered, in order, unless the client went away
@@ -2616,13 +2801,41 @@ func genSrvScenarios(ctx *Ctx) []*srvScen {
 			out = append(out, &srvScen{N: 1 + rep%2, Kind: "i", Sd: sd, Hk: "dead", Seed: uint64(rep)})
 		}
 	}
+	// Shutdown before Serve is started
+	for _, k := range []string{"i", "r", "f"} {
+		for _, n := range []int{1, 2} {
+			for rep := 0; rep < ctx.N(1, 3); rep++ {
+				out = append(out, &srvScen{N: n, Kind: k, Sd: "pre", Seed: uint64(rep)})
+			}
+		}
+	}
+	// Shutdown called SEVERAL times (2-3 calls), overlapping in time or one after the other, the first of them
+	// at a directed point with work in flight: every one of the calls has to find, at ITS return, what the
+	// property promises after shutdown returns
+	recalls := []string{"o", "m", "d", "s", "oo", "os", "ms", "dd"}
+	type ksd struct{ k, sd string }
+	directed := []ksd{{"r", "handler"}, {"p", "handler"}, {"r", "hook"}, {"i", "hook"}, {"i", "quiet"}, {"r", "quiet"}, {"p", "p:beforeSend"},
+		{"r", "p:sendLoaded"}, {"r", "p:readBeforeRx"}, {"p", "p:afterCancel"}, {"r", "p:connStart"}, {"d", "any"}, {"p", "any"}, {"r", "accept1"},
+		{"f", "hook"}, {"r", "spawn"}, {"i", "start"}, {"r", "pre"}}
+	for xi, x := range recalls {
+		for di, d := range directed {
+			for rep := 0; rep < ctx.N(1, 4); rep++ {
+				out = append(out, &srvScen{N: 1 + (xi+di+rep)%2, Kind: d.k, Sd: d.sd, X: x, Seed: uint64(3*rep + (xi+di)%3)})
+			}
+		}
+	}
 	// registration racing with Shutdown (seed % 3 == 2: both released at the same moment)
 	for rep := 0; rep < ctx.N(40, 300); rep++ {
 		out = append(out, &srvScen{N: 1 + rep%2, Kind: rng.Pick(ctx.R, []string{"i", "r", "r", "f"}), Sd: "accept" + strconv.Itoa(1+rep%2), Seed: uint64(3*rep + 2)})
 	}
 	// waiting handlers, clients that do not read their response: each takes the 3 s grace period
-	ws := []*srvScen{{N: 1, Kind: "w", Sd: "handler"}, {N: 2, Kind: "w", Sd: "quiet"}, {N: 1, Kind: "n", Sd: "quiet"}}
+	ws := []*srvScen{{N: 1, Kind: "w", Sd: "handler"}, {N: 2, Kind: "w", Sd: "quiet"}, {N: 1, Kind: "n", Sd: "quiet"},
+		// … while Shutdown is called again during the grace period (which the further calls must neither cut short
+		// nor outlive) and once more afterwards
+		{N: 1, Kind: "w", Sd: "handler", X: "o"}, {N: 2, Kind: "w", Sd: "quiet", X: "ms"}, {N: 1, Kind: "n", Sd: "quiet", X: "os"}}
 	if ctx.Thor {
+		ws = append(ws, &srvScen{N: 2, Kind: "w", Sd: "handler", X: "dd", Seed: 1}, &srvScen{N: 1, Kind: "w", Sd: "quiet", X: "oo", Seed: 2},
+			&srvScen{N: 2, Kind: "n", Sd: "handler", X: "m", Seed: 3}, &srvScen{N: 1, Kind: "w", Sd: "p:readBeforeRx", X: "os", Seed: 4})
 		ws = append(ws, &srvScen{N: 2, Kind: "w", Sd: "handler", Seed: 1}, &srvScen{N: 1, Kind: "w", Sd: "any", Seed: 3},
 			&srvScen{N: 2, Kind: "w", Sd: "accept2", Seed: 2}, &srvScen{N: 1, Kind: "w", Sd: "quiet", Seed: 5},
 			&srvScen{N: 2, Kind: "n", Sd: "any", Seed: 4}, &srvScen{N: 1, Kind: "n", Sd: "p:sendLoaded", Seed: 6},
@@ -2630,13 +2843,16 @@ func genSrvScenarios(ctx *Ctx) []*srvScen {
 	}
 	out = append(out, ws...)
 	r := ctx.R
-	allSds := append(append([]string{}, sds...), "p:connStart", "p:beforeSend", "p:sendLoaded", "p:readBeforeRx", "p:afterCancel")
+	allSds := append(append([]string{}, sds...), "p:connStart", "p:beforeSend", "p:sendLoaded", "p:readBeforeRx", "p:afterCancel", "pre")
 	for i := ctx.N(60, 600); i > 0; i-- {
 		sc := &srvScen{N: 1 + r.Intn(2), Kind: rng.Pick(r, []string{"i", "r", "f", "d", "r", "d", "p", "p"}), Sd: rng.Pick(r, allSds), Seed: r.U64()%100000 + 2}
 		if sc.Kind == "f" {
 			sc.Hk = rng.Pick(r, hookShapesFail)
 		} else if r.Intn(2) == 0 {
 			sc.Hk = rng.Pick(r, hookShapesOK)
+		}
+		if r.Intn(3) == 0 {
+			sc.X = rng.Pick(r, recalls)
 		}
 		out = append(out, sc)
 	}
@@ -2733,6 +2949,9 @@ func runLtsServer(ctx *Ctx) {
 		ctx.Res.Count("server.k=" + sc.Kind)
 		ctx.Res.Count("server.sd=" + sc.Sd)
 		ctx.Res.Count("server.n=" + strconv.Itoa(sc.N))
+		if sc.X != "" {
+			ctx.Res.Count("server.x=" + sc.X)
+		}
 	}
 	// positive controls on the schedule director
 	if len(ctx.Replay) == 0 {
@@ -2748,7 +2967,8 @@ func runLtsServer(ctx *Ctx) {
 				ctx.Res.Fail("Shutdown was never injected while a goroutine was held at " + pt)
 			}
 		}
-		floors := []string{"server.held:accept", "server.held:spawn", "server.held:handler", "server.held:hook", "tls.stalled-in-handshake", "tls.served", "tls.neighbour-served", "server.hookran:ok:dead"}
+		floors := []string{"server.held:accept", "server.held:spawn", "server.held:handler", "server.held:hook", "server.held:pre",
+			"server.recall:overlap-busy", "server.recall:overlap", "server.recall:sequential", "tls.stalled-in-handshake", "tls.served", "tls.neighbour-served", "server.hookran:ok:dead"}
 		for _, hk := range hookShapesFail {
 			floors = append(floors, "server.hookran:fail:"+hk)
 		}
@@ -2774,7 +2994,7 @@ func init() {
 	})
 	register(&Engine{
 		Name: "lts.server",
-		Rule: "the real kmipserver.Server (Serve + Shutdown) over in-memory connections in child processes (positive control per child): 1-2 clients of kind {idle, one request, two pipelined requests, failing connect hook (its client sends a request, which must reach no handler), disconnecting at a random time, handler waiting for its context, client that never reads its response} x Shutdown called {at a random time, before any connection, while the accept loop is held between Accept and registration of the 1st/2nd connection (Shutdown completing before / overlapping / released at the same moment as the loop), between `go handleConn` and the first instruction of the new goroutine (Shutdown called from the listener's Accept, on the accept loop's goroutine), when quiescent, while a handler is held running, while a connect hook is held running, while a goroutine of a connection is held at each of the 6 connection yield points (the first statement of handleConn included)}; the connect hook's result in every shape (hk=: a failing hook returns, WITH its error, no context / the context it was given / a derived one with a value / a derived cancellable one / a derived already cancelled one / context.Background(); a succeeding hook returns the given context, one derived with a value, a cancellable one that the terminate hook cancels, or — idle clients only — an already cancelled one), each shape required to have run; random delays at all yield points; tls jobs: a peer stalled in the TLS handshake (silent / partial record) while Shutdown is called, and while other peers must be served; observed at the return of Shutdown and after settling: Serve's return, running handlers, alive owner and reader/writer goroutines, hook counts and order, no handler started and no response received on a refused connection, the terminate hook's context derived from the connect hook's, Shutdown duration relative to the 3 s grace period, the responses each client received (compared with the handlers that ran), the server-side close of every connection incl. refused ones; gates: Shutdown injected at least once at every directed point; distinct = distinct (scenario, outcome) line; nontrivial = 2 connections or traffic",
+		Rule: "the real kmipserver.Server (Serve + Shutdown) over in-memory connections in child processes (positive control per child): 1-2 clients of kind {idle, one request, two pipelined requests, failing connect hook (its client sends a request, which must reach no handler), disconnecting at a random time, handler waiting for its context, client that never reads its response} x Shutdown called {at a random time, before any connection, while the accept loop is held between Accept and registration of the 1st/2nd connection (Shutdown completing before / overlapping / released at the same moment as the loop), between `go handleConn` and the first instruction of the new goroutine (Shutdown called from the listener's Accept, on the accept loop's goroutine), when quiescent, while a handler is held running, while a connect hook is held running, while a goroutine of a connection is held at each of the 6 connection yield points (the first statement of handleConn included), before Serve is started (sd=pre)} x further calls of Shutdown (x=, 0-2 of them: together with the first call / as soon as the first call has closed the listener, i.e. while it drains / 0..1500 µs later / after the earlier calls and Serve have returned; also during the 3 s grace period), each call observed at ITS return: no handler running, no owner / reader / writer goroutine alive, hooks paired, duration within the bound; the listener's second Close reports net.ErrClosed; the connect hook's result in every shape (hk=: a failing hook returns, WITH its error, no context / the context it was given / a derived one with a value / a derived cancellable one / a derived already cancelled one / context.Background(); a succeeding hook returns the given context, one derived with a value, a cancellable one that the terminate hook cancels, or — idle clients only — an already cancelled one), each shape required to have run; random delays at all yield points; tls jobs: a peer stalled in the TLS handshake (silent / partial record) while Shutdown is called, and while other peers must be served; observed at the return of Shutdown and after settling: Serve's return, running handlers, alive owner and reader/writer goroutines, hook counts and order, no handler started and no response received on a refused connection, the terminate hook's context derived from the connect hook's, Shutdown duration relative to the 3 s grace period, the responses each client received (compared with the handlers that ran), the server-side close of every connection incl. refused ones; gates: Shutdown injected at least once at every directed point, a further call made while a handler was running / while the first call was running / after it had returned; distinct = distinct (scenario, outcome) line; nontrivial = 2 connections or traffic",
 		Run:  runLtsServer,
 	})
 }
